@@ -78,7 +78,8 @@ theorem LexRel.emitted {d np : Nat} {ab ab' : Ab} {ls lw ls' lw' : LexRegs} (h :
     (hnt : (ls'.curNonTag = ls.curNonTag ∧ lw'.curNonTag = lw.curNonTag) ∨ (ls'.curNonTag = none ∧ lw'.curNonTag = none)) :
     LexRel δ 0 ab' np ls' lw' := by
   obtain ⟨n1, n2, n3, n4, n5, n6⟩ := hn
-  refine ⟨by omega, by omega, by intro g; rw [h1]; exact hp g, hfd, by intro g; simp [n1] at g, ?_, ?_, ?_, by intro g; simp [n6] at g⟩
+  refine ⟨by omega, by omega, by intro g; rw [h1]; exact hp g, hfd, by intro g; simp [n1] at g, ?_, ?_, ?_, by intro g; simp [n6] at g,
+    by intro g; simp [n5] at g, by intro g; simp [n5] at g⟩
   · rw [n2, n3]
     rcases htag with ⟨a, b⟩ | ⟨a, b⟩
     · rw [a, b]; exact OptRel.mono (fun _ _ hr => hr.stale) h.tag
@@ -103,7 +104,7 @@ theorem lexEmitNonTag_sim (hops : OpsSim env.ops inpS inpW δ K Loc) {ab ab' : A
     (htag : (ls.curTag = ls0.curTag ∧ lw.curTag = lw0.curTag) ∨ (ls.curTag = none ∧ lw.curTag = none))
     (hattr : ls.curAttr = ls0.curAttr ∧ lw.curAttr = lw0.curAttr)
     (hnt : (ls.curNonTag = ls0.curNonTag ∧ lw.curNonTag = lw0.curNonTag) ∨ (ls.curNonTag = none ∧ lw.curNonTag = none))
-    :
+    (hdt : DtIn inpS inpW δ o) :
     ActSim δ K ab' true (lexEmitNonTag env inpS cs ls xs o es)
       (lexEmitNonTag env inpW cw lw xw (o.map (shNonTag δ)) (es + δ)) := by
   rw [lexEmitNonTag_eq, lexEmitNonTag_eq]
@@ -111,7 +112,7 @@ theorem lexEmitNonTag_sim (hops : OpsSim env.ops inpS inpW δ K Loc) {ab ab' : A
     have := hl.ls_eq
     simp only [shR, hls, hlw, Range.mk.injEq]; exact ⟨by omega, trivial⟩
   rw [hraw]
-  have hop := hops.nonTag xw.prevConsumed ⟨ls.lexemeStart, es⟩ o xs.sink xw.sink hK
+  have hop := hops.nonTag xw.prevConsumed ⟨ls.lexemeStart, es⟩ o xs.sink xw.sink hK hdt
   rw [← hpc] at hop
   rcases hop with hpan | ⟨hres, hK'⟩
   · left
@@ -145,7 +146,7 @@ theorem lexEmitText_sim (hops : OpsSim env.ops inpS inpW δ K Loc) {d : Nat} {ab
     by_cases hgt : cs.pos > ls.lexemeStart
     · rw [if_pos hgt, if_pos (by omega), hpos, hc.lastTextType]
       exact lexEmitNonTag_sim hops (some (.text cs.lastTextType)) cs.pos hc hl hsim hpc hK hn (by omega)
-        (fun _ => by omega) rfl rfl hl.fd (Or.inl ⟨rfl, rfl⟩) ⟨rfl, rfl⟩ (Or.inl ⟨rfl, rfl⟩)
+        (fun _ => by omega) rfl rfl hl.fd (Or.inl ⟨rfl, rfl⟩) ⟨rfl, rfl⟩ (Or.inl ⟨rfl, rfl⟩) trivial
     · rw [if_neg hgt, if_neg (by omega)]
       refine ActSim.ret ⟨hc, ?_, hsim, hpc⟩ hK
       exact hl.emitted hn ls.lexemeStart (by omega) (fun _ => by omega) rfl (by omega) hl.fd
@@ -238,7 +239,7 @@ theorem lexEmitEof_sim (hops : OpsSim env.ops inpS inpW δ K Loc) {ab : Ab} {ms 
       simp only
       rw [hpos]
       exact lexEmitNonTag_sim hops (some .eof) ms.c.pos hc hl hsim hpc hK hn (by omega)
-        (fun _ => by omega) rfl rfl hl.fd (Or.inl ⟨rfl, rfl⟩) ⟨rfl, rfl⟩ (Or.inl ⟨rfl, rfl⟩)
+        (fun _ => by omega) rfl rfl hl.fd (Or.inl ⟨rfl, rfl⟩) ⟨rfl, rfl⟩ (Or.inl ⟨rfl, rfl⟩) trivial
     | scanner sw => rw [hrs, hrw] at hr; exact hr.elim
   | scanner ss =>
     cases hrw : mw.r with
